@@ -943,9 +943,33 @@ def rec_scenario(s, path, plans, write_interval, keep_open, line_level):
             src_lines[start + k] = ln.strip()
     except OSError:
         pass
-    marks = {"quit": [n for n, t in src_lines.items() if t.startswith("quitflag = self._shutdown_requested")],
-             "wend": [n for n, t in src_lines.items() if t == "recordings.clear()  # All recordings were processed."
-                      or t.startswith("recordings.clear()")]}
+    # the two marked lines of run() are found by SHAPE, not by text (local variables may be renamed):
+    #   quit: `<local> = self._shutdown_requested`;  wend: `<X>.clear()` where X is the local swapped with self._recordings
+    marks = {"quit": [], "wend": []}
+    try:
+        import ast
+        import textwrap
+        ftree = ast.parse(textwrap.dedent("".join(lines))).body[0]
+        off = start - 1
+
+        def is_self_attr(e, name):
+            return isinstance(e, ast.Attribute) and e.attr == name and isinstance(e.value, ast.Name) and e.value.id == "self"
+        swapped = set()
+        for n in ast.walk(ftree):
+            if isinstance(n, ast.Assign) and is_self_attr(n.value, "_shutdown_requested"):
+                marks["quit"].append(n.lineno + off)
+            if isinstance(n, ast.Assign) and isinstance(n.value, ast.Tuple) and any(is_self_attr(e, "_recordings") for e in n.value.elts):
+                for t in n.targets:
+                    for e in (t.elts if isinstance(t, ast.Tuple) else [t]):
+                        if isinstance(e, ast.Name):
+                            swapped.add(e.id)
+        for n in ast.walk(ftree):
+            if isinstance(n, ast.Expr) and isinstance(n.value, ast.Call) and isinstance(n.value.func, ast.Attribute) \
+                    and n.value.func.attr == "clear" and isinstance(n.value.func.value, ast.Name) \
+                    and n.value.func.value.id in swapped and not n.value.args:
+                marks["wend"].append(n.lineno + off)
+    except (NameError, SyntaxError, IndexError):
+        pass
     obs["marks_ok"] = bool(marks["quit"]) and bool(marks["wend"])
 
     def tracer(frame, event, arg):
